@@ -3,15 +3,15 @@ import Ggql.Driver.Tables
 namespace Ggql.Driver.C12
 open Ggql
 
-/-- D47 (hand-set): under the reflection strategy an interface-typed field is resolved through
+/- D47 (read from `getReflectType` by the translator: `Tables.ifaceNeedsBound`): under the reflection strategy an interface-typed field is resolved through
 `getReflectType`, which only finds Go types some earlier request has already bound; on a cold root
 the object's fields come back null without an error.  The response of such a request depends on what
 other requests ran before it. -/
-def d47Current : Bool := true
 
 /-- `(c12 n)`: n concurrent requests from a cold root; obs `(obs mismatches panics ifaceMismatch)`.
 The model of isolation is the property itself: every response equals the solo response. -/
-def handle (_tb : Tables) (c impl : T) : String :=
+def handle (tb : Tables) (c impl : T) : String :=
+  let d47Current := tb.ifaceNeedsBound
   match c, impl with
   | .node "c12" [_], .node "obs" [mm, pn, im] =>
     if mm == T.ofNat 0 && pn == T.ofNat 0 then
@@ -28,6 +28,6 @@ def handle (_tb : Tables) (c impl : T) : String :=
   | _, _ => "bad-op"
 
 def flags (tb : Tables) : List (String × Bool) :=
-  [("D26", !(LockTable.unguardedSites tb.locks).isEmpty), ("D47", d47Current)]
+  [("D26", !(LockTable.unguardedSites tb.locks).isEmpty), ("D47", tb.ifaceNeedsBound)]
 
 end Ggql.Driver.C12
